@@ -146,6 +146,29 @@ CHECKS["C03"] = dict(
     design_ref="§2 C03",
 )
 
+CHECKS["C18"] = dict(
+    engine="enum+sched",
+    technique="exhaustive enumeration of workflow programs x re-execution histories x process images through the real submit/claim/run path on both state backends + deviation-bounded schedule exploration of two worker threads running the same task for two workflows",
+    text="Programs: all 155 (thorough 780) sequences of 1-3 (1-4) operations over random / utc_now / uuid / execute_task(sub,0) / execute_task(sub,1), run by one interpreter task through task.wf.*. Histories: three attempts via RetryError; kill-and-reroute and running recovery at every position; two workflows sequential / alternating / with retries; images: same app object, a fresh Pynenc + fresh Task objects on the same SQLite file before every poll, two runner images taking turns. Oracle per workflow: attempt k yields the values of attempt 1 position by position, one sub-invocation per (workflow, call) handed back on later attempts, workflow data of A holds only A's values. Schedules: two threads, same task, two workflows, line points in workflow_deterministic / workflow_context / mem_state_backend or SQL-statement points, <= 1-2 (2-3) deviations.",
+    note="The harness time base of utc_now follows the virtual clock through a datetime shim installed by the check. pynenc's own deterministic random/uuid are not the harness's uuid4 replacement.",
+    design_ref="§2 C18",
+)
+CHECKS["C13"] = dict(
+    engine="bfs+sched+enum",
+    technique="explicit-state BFS over occurrence histories per trigger configuration on both trigger stores against a reference multiset model + deviation-bounded schedule exploration of concurrent trigger-loop iterations + exhaustive cron poll-sequence enumeration against an independent brute-force cron evaluator",
+    text="Occurrences: 45 trigger configurations (every 1-3 subset of {event e1, event e2, status, result, exception}, single / OR / AND) registered through the public decorator path; BFS (depth 4-5, thorough 6-7) over emit(e1,1|2), emit(e2,1), a real source invocation finishing ok / failing, trigger_loop_iteration, in three alphabets (full; at most one pending occurrence per condition; additionally one exception per history) on the in-memory and SQLite stores; launches (multiset of argument dicts of the target task) and remaining valid conditions compared with a model written from the property text. Schedules: two concurrent loop iterations (+ a concurrent emit) over 7 scenarios, memory (one shared trigger object, line points in mem_trigger/base_trigger) and SQLite (one app object per process, statement points), <= 1-2 (2-3) deviations: exactly one launch per occurrence. Cron part: see vf/props/c13_cron.py (expression family x window x min interval x poll sequences vs an independent evaluator; concurrent cron polls).",
+    note="Status occurrences restricted to final statuses. Five recorded findings: several pending occurrences of one condition launch once (4 kinds), OR launches share the first context's arguments. KeyError out of a concurrent loop iteration's clean-up (launches stay correct) is counted, not judged.",
+    design_ref="§2 C13",
+)
+
+CHECKS["C16"] = dict(
+    engine="bfs",
+    technique="explicit-state BFS per component pair (in-memory implementation, SQLite implementation, reference model written from the abstract-base-class contract) over the public operation alphabet with small universes; result / exception class and a full read-out compared after every operation",
+    text="Orchestrator (85 queries per state: records, existing-by-task/args/status, pagination, counts, filter-by-status, retries, heartbeats / active runners / recovery scans under a frozen dyadic clock, auto-purge with aged seeds, wait graph incl. cycles, purge), state backend (60 queries: invocations, children, results, exceptions, histories, runner contexts, workflow data / runs / sub-invocations, time-range iterators, purge), trigger store (conditions, triggers, valid conditions, events, cron bookkeeping, expiring claims, purge), client data store and broker; work split over configuration x seeded history x first operation; quick depth 3-5 after seeds (52k transitions), thorough 4-8 (427k). 'probe/*' configurations are tiny searches around each suspected divergence, each implementation alone against the literal contract.",
+    note="Only the exhaustive half of the quantifier (no random long sequences). Order compared only where the base class promises one. Eleven recorded findings (known_findings.json), all low-severity divergences or places where both implementations depart from the docstring; operations on ids never registered, batches with tied timestamps and naive datetimes are outside the alphabet (unspecified).",
+    design_ref="§2 C16",
+)
+
 NOT_YET = "check not built yet in this session (planned, see DESIGN.md §2)"
 
 
